@@ -1699,7 +1699,7 @@ impl<'c, 'r> ContextStack<'c> {
             // set the new value
             let new_value = match def.value.evaluate(&self.base, mathml) {
                 Ok(val) => val,
-                Err(_) => bail!(format!("Can't evaluate variable def for {}", def)),
+                Err(e) => return Err(e).chain_err(|| format!("Can't evaluate variable def for {}", def)),   // keep the cause (it might name a file)
             };
             let qname = QName::new(def.name.as_str());
             self.base.set_variable(qname, new_value);
@@ -1723,7 +1723,7 @@ impl<'c, 'r> ContextStack<'c> {
             // set the new value
             let new_value = match def.value.evaluate(&self.base, mathml) {
                 Ok(val) => val,
-                Err(_) => bail!(format!("Can't evaluate variable def for {} with ContextStack {}", def, self)),
+                Err(e) => return Err(e).chain_err(|| format!("Can't evaluate variable def for {} with ContextStack {}", def, self)),   // keep the cause (it might name a file)
             };
             let qname = QName::new(def.name.as_str());
             self.base.set_variable(qname, new_value);
